@@ -3,7 +3,7 @@ query ('assert' / 'stuck') of the scenario decides which property."""
 ALL = []
 
 def S(name, src, props, defs=(), std=17, extra=(), models=None, bound=None, tiers=('quick', 'thorough'), expect=None,
-      opts=None, qcap=None, timeout=None, cflags=()):
+      opts=None, qcap=None, timeout=None, cflags=(), xsrc=()):
     if models is None: models = {'quick': ['sc', 'arm'], 'thorough': ['sc', 'tso', 'arm']}
     if isinstance(models, (list, tuple)): models = {'quick': list(models), 'thorough': list(models)}
     if bound is None: bound = {'quick': 2, 'thorough': 3}
@@ -14,7 +14,7 @@ def S(name, src, props, defs=(), std=17, extra=(), models=None, bound=None, tier
     if isinstance(timeout, int): timeout = {'quick': timeout, 'thorough': timeout}
     assert not any(s['name'] == name for s in ALL), name
     ALL.append(dict(name=name, src=src, props=dict(props), defs=list(defs), std=std, extra=list(extra), models=models, bound=bound,
-                    tiers=tuple(tiers), expect=dict(expect or {}), opts=dict(opts or {}), qcap=qcap, timeout=timeout, cflags=list(cflags)))
+                    tiers=tuple(tiers), expect=dict(expect or {}), opts=dict(opts or {}), qcap=qcap, timeout=timeout, cflags=list(cflags), xsrc=list(xsrc)))
 
 ASSUMPTIONS_COMMON = [
     'bounded claim: only the listed scenarios (threads, operations per thread, capacities) and loop unrollings are covered; executions needing more iterations of a loop than the bound are outside the claim unless unwind_proved',
@@ -221,6 +221,13 @@ tpx('submit_then_stop', ['SUBMIT(0);STOP_MARKS(1);JOIN(0);vf_check(__atomic_load
 tpx('two_tasks', ['SUBMIT(0);SUBMIT(1);STOP_MARKS(1);JOIN(0)', 'WORKER(0)'], 'vf_check(ran[0]==1 && ran[1]==1, 2)')
 tpx('two_workers', ['SUBMIT(0);SUBMIT(1);STOP_MARKS(2);JOIN(0);JOIN(1)', 'WORKER(0)', 'WORKER(1)'], 'vf_check(ran[0]==1 && ran[1]==1, 2)', tiers=TH, timeout=7200)
 # (a task that submits a child into the worker's local queue does not converge in the engine yet: formula contradictory, see DESIGN.md open items)
+
+# ----------------------------------------------------------------------------------------------- C11: serialization (sequential)
+SRX = ['babylon/serialization/traits.cpp']
+def ser(name, defs, **kw):
+    S('ser_' + name, 'serial/ser.cpp', {'assert': 'C11'}, defs=defs, extra=SRX, models=['sc'], bound=12, xsrc=['serial/pbmodel.cpp'], **kw)
+ser('roundtrip', ['VF_ROUNDTRIP=1'])
+ser('hostile_len4', ['VF_INLEN=4'], opts={'oob': '1'})
 
 # ----------------------------------------------------------------------------------------------- manifest texts
 LEVEL_TEXT = {
